@@ -27,14 +27,14 @@ PROP = {'gen': ['base64'],
                'a transmitted image, pixels transmitted at most once between error responses; placement ids in 1..2^32-1, invertible '
                'and injective for coordinates < 65536 except the forced pair (65534,65535)/(65535,65535) (pigeonhole theorem), erase removes '
                'exactly the placement draw created; the model passes the very predicate applied to the implementation on every '
-               'well-formed case outside the two known classes (two contents colliding in the 32-bit image id: id-collision, '
-               'refuted by a concrete pair; the last position sharing its placement id: pid-corner). Pixels are transmitted at most '
+               'well-formed case outside the known class pid-corner (the last position shares its placement id). Image ids are '
+               'allocated per content (two contents never share one: C11_ids_distinct, probe_fresh). Pixels are transmitted at most '
                'once BETWEEN ERROR RESPONSES naming the id (C11_once_between_errors), not once per handler lifetime. Constants regenerated from the source each run; model tied to the code by the byte-for-byte '
                'correspondence run.',
  'level_note': 'Trusted: Coq kernel + vm_compute; translate/kitty.py, translate/tables.py; hand-written model validated by the '
                'correspondence run; Image/KittySpec.v as the reading of the kitty graphics protocol document; Surface::hash modelled '
-               '(fnv-1a, Image/Fnv.v) and compared with the crate on every case; no 32-bit hash collision between the contents of '
-               'one history (hypothesis). No axioms (Print Assumptions: closed; coqchk clean).',
+               '(fnv-1a, Image/Fnv.v) and compared with the crate on every case; no collision of the full 64-bit hash between the '
+               'contents of one history, histories shorter than 2^32-1 calls (hypotheses of C11_model_meets_predicate_...). No axioms (Print Assumptions: closed; coqchk clean).',
  'technique': 'Coq proof (induction over chunking and over histories, parser/printer round trip, refinement to a terminal-side store) '
               '+ regenerated constants + model/implementation correspondence',
  'design_ref': 'DESIGN.md 6.11',
@@ -50,7 +50,8 @@ PROP = {'gen': ['base64'],
                   'Image/KittySpec.v: the reading of the kitty graphics protocol document (parser, terminal-side store) the theorems are '
                   'stated against',
                   HARNESS],
- 'assumptions': ['distinct contents in one history have distinct image ids (no collision of the 64-bit fnv hash modulo 2^32-1); the hash '
-                 'function itself is modelled (Image/Fnv.v) and compared with the crate on every image of every case',
+ 'assumptions': ['distinct contents in one history have distinct 64-bit fnv hashes; the hash function itself is modelled (Image/Fnv.v) '
+                 'and compared with the crate on every image of every case',
+                 'fewer than 2^32-1 image ids in use (with every id taken the allocation loop of the handler would not terminate)',
                  'images are well formed (their shape is a window of the backing vector, as produced by Image::new/from/crop)',
                  'writes to the output never fail']}
